@@ -202,6 +202,26 @@ class ClassRef(orders.PyStub):
             static = any(isinstance(d, ast.Name) and d.id in ('staticmethod',) for d in node.decorator_list) or not params or params[0] not in ('self', 'cls')
             if static:
                 setattr(self, name, orders.make_func(node, fn))
+            elif name != '__init__':
+                # an instance method reached through the class, with the receiver passed explicitly: Track.helper(self, ...)
+                setattr(self, name, self._unbound(name))
+
+    def _unbound(self, name):
+        methods = methods_of(self._ctx, self._qual)
+        clsname = self._ctx.prog.cls(self._qual).name
+        owners = owners_of(self._ctx, self._qual)
+
+        def call(receiver, *args, **kwargs):
+            if isinstance(receiver, orders.Obj):
+                if name in receiver.methods:
+                    return receiver.call(name, *args, **kwargs)
+                raise orders.Unsupported('%s.%s called on a record of another class' % (clsname, name))
+            if isinstance(receiver, orders.PyStub):
+                b = orders._Bound(receiver, methods, self._fn)
+                return orders.Obj.call(b, name, *args, **kwargs)
+            raise TypeError('%s.%s() needs an instance as first argument' % (clsname, name))
+        call.__name__ = name
+        return call
 
     def __call__(self, *args, **kwargs):
         obj = instance(self._ctx, self._qual, {}, self._fn, isa=all_bases(self._ctx, self._qual))
